@@ -133,6 +133,7 @@ func Run(c *core.Ctx, replay string) (*core.Result, error) {
 		progs = c02.Programs(c.Seed, nProg, func(o *absprog.Opts, rng *rand.Rand) {
 			o.Recursive = false
 			o.DataIgnore = true
+			o.Pointers = rng.Intn(2) == 0
 		})
 		// one witness program with recursive types keeps the recorded finding visible
 		rng := rand.New(rand.NewSource(c.Seed + 99))
